@@ -247,5 +247,3 @@ func graphAllow(name, via string, path []string) (string, bool) {
 	return "", false
 }
 
-// CheckDestKinds is the string-kind consistency rule of C10(c,d); see DESIGN.md (not implemented: D9 is documented, not reached by a rule).
-func CheckDestKinds(run *core.Run, prog *load.Program) {}
